@@ -43,7 +43,10 @@ pub fn expected(text: &str, pos: usize) -> (usize, usize, &str) {
 
 pub fn check(c: &Case) -> Result<Vec<&'static str>, Failure> {
     let err = ParseError { position: c.pos, specifics: ParseErrorSpecifics::ExpectedEoi };
-    colored::control::set_override(c.color);
+    // with colours on the output is compared after stripping ANSI sequences; a text that itself contains ESC
+    // cannot be told apart from colour codes, so such texts are checked with colours off
+    let use_color = c.color && !c.text.contains('\x1b') && !c.file.as_deref().unwrap_or("").contains('\x1b');
+    colored::control::set_override(use_color);
     let text = c.text.clone();
     let file = c.file.clone();
     let r = std::panic::catch_unwind(move || {
@@ -63,7 +66,7 @@ pub fn check(c: &Case) -> Result<Vec<&'static str>, Failure> {
             return Err(Failure::new(format!("conversion to the pretty form panicked: {msg}"), want_loc, "panic".to_string()));
         }
     };
-    let plain = if c.color { strip_ansi(&shown) } else { shown.clone() };
+    let plain = if use_color { strip_ansi(&shown) } else { shown.clone() };
     let lines: Vec<&str> = plain.split('\n').collect();
     // layout: message / "--> " location / " |  " / " |  " line / " |  " caret / ""
     if lines.len() < 5 {
